@@ -27,3 +27,12 @@ Proof.
     destruct (hint_allows_probe (hint_after s k)); cbn; [|reflexivity].
     destruct (items s k); reflexivity.
 Qed.
+
+(* the serializer: one serialize_tuple(N), one serialize_element per element in index order, end() *)
+Theorem tie_serialize a : ser_run gen_serialize a = Some (serialize a).
+Proof. reflexivity. Qed.
+
+(* Deserialize::deserialize hands a visitor made of PhantomData only to deserialize_tuple(N::USIZE, ..) *)
+Lemma tie_deserialize :
+  gen_deserialize = ("deserialize_tuple", "N :: USIZE", ["_t : PhantomData"; "_n : PhantomData"]).
+Proof. reflexivity. Qed.
